@@ -30,6 +30,13 @@ def run_closure(chk: Check, recs: List[dict]) -> None:
     chk.rule("C09.R1", "result of every applicable case is a well-formed tree again (closure of W)", minimum=400)
     chk.rule("C09.R2", "no rule keeps or links a node that outlives the call", minimum=400)
     for r in recs:
+        if r["outcome"] == "history":
+            site = r.get("note", "").split(" at ")[-1].split(":L")[0]
+            chk.fail("C09.R2", f"C09.R2:{r['rule']}:history-dependent:{site}", case_label(r),
+                     f"a step's outcome depends on state that earlier steps left on the rule object ({r.get('note')}): "
+                     f"after a rewrite that keeps a node's id but changes its operands the stale entry drives the next step",
+                     witness={"path": r["cond"][:400]}, where=where_rule(r))
+            continue
         if r["outcome"] != "applied" or not r.get("result_is_node") or "judge_error" in r:
             continue
         label = case_label(r)
